@@ -1022,3 +1022,59 @@ def file_method(interp, fh: _FileHandle, name, args, kwargs):
     if name == "read" and fh.mode == "r":
         return sym.sstr(z3.Select(g["fs_content"], ps))
     raise Unsupported(f"file.{name} in mode {fh.mode}")
+
+
+# ---------------------------------------------------------------------------------------
+# json (A-FS codec): encode/decode are uninterpreted with decode(encode(m)) == m
+# ---------------------------------------------------------------------------------------
+def _json_ufs():
+    A = z3.ArraySort(z3.StringSort(), z3.BoolSort())
+    B = z3.ArraySort(z3.StringSort(), z3.StringSort())
+    return (
+        sym.ufun("json_dec_has", z3.StringSort(), A),
+        sym.ufun("json_dec_val", z3.StringSort(), B),
+        sym.ufun("json_enc", A, B, z3.StringSort()),
+    )
+
+
+def json_decode(interp, s):
+    dh, dv, _ = _json_ufs()
+    zs = zstr(s)
+    interp.used_models.add("json: loads/dump are an uninterpreted codec with loads(dump(m)) == m; the file holds a str->str object")
+    return SMap(dh(zs), dv(zs), sym.TStr(), sym.TStr())
+
+
+def json_encode(interp, m):
+    dh, dv, enc = _json_ufs()
+    if isinstance(m, dict):
+        m = sym.dict_to_smap(interp.ctx, m, sym.TStr(), sym.TStr())
+    if not isinstance(m, SMap):
+        raise Unsupported("json.dump of non-map")
+    e = enc(m.has, m.val)
+    interp.ctx.assume(z3.And(dh(e) == m.has, dv(e) == m.val))
+    interp.used_models.add("json: loads/dump are an uninterpreted codec with loads(dump(m)) == m; the file holds a str->str object")
+    return sym.sstr(e)
+
+
+@native_model("json.loads")
+def _m_json_loads(interp, args, kwargs):
+    if is_concrete(args):
+        import json
+
+        return json.loads(args[0])
+    return json_decode(interp, args[0])
+
+
+@native_model("json.dump")
+def _m_json_dump(interp, args, kwargs):
+    obj, fh = args[0], args[1]
+    return file_method(interp, fh, "write", [json_encode(interp, obj)], {})
+
+
+@native_model("json.dumps")
+def _m_json_dumps(interp, args, kwargs):
+    if is_concrete(args):
+        import json
+
+        return json.dumps(*args, **kwargs)
+    return json_encode(interp, args[0])
